@@ -331,6 +331,14 @@ class Enc:
             A = self.node(a)
             n = Val(Fraction(outcome))
             return z3.And(self.le_formula(n, A), self.lt_formula(A, self.add(n, VONE)))
+        if kind == 'truncint':     # conversion to an integer type: truncation towards zero
+            A = self.node(a)
+            n = Val(Fraction(outcome))
+            if outcome > 0:
+                return z3.And(self.le_formula(n, A), self.lt_formula(A, self.add(n, VONE)))
+            if outcome < 0:
+                return z3.And(self.lt_formula(self.add(n, VONE, -1), A), self.le_formula(A, n))
+            return z3.And(self.lt_formula(Val(Fraction(-1)), A), self.lt_formula(A, VONE))
         raise ValueError(kind)
 
     def denom_conditions(self):
@@ -453,3 +461,44 @@ def smt2(formulas, logic='QF_NRA'):
     for f in formulas:
         s.add(f)
     return '(set-logic %s)\n' % logic + s.to_smt2().replace('(set-info :status unknown)', '')
+
+
+_XCHECK_DONE = 0
+
+
+def xcheck(formulas, budget=3, tlimit=15):
+    """s3.4.3: a sample of the discharged obligations is re-decided by two other solvers (z3 4.8.12 CLI, cvc5 1.0.x) on the
+    exported SMT-LIB2.  Returns None when this worker's sample budget is used up."""
+    global _XCHECK_DONE
+    import os, subprocess, tempfile
+    if _XCHECK_DONE >= budget or os.environ.get('SYMX_XCHECK', '1') == '0':
+        return None
+    _XCHECK_DONE += 1
+    text = smt2([f for f in formulas if not z3.is_true(f)]) + '\n(check-sat)\n'
+    if '(check-sat)' in text[:-14]:
+        text = text[:-13]
+    fd, path = tempfile.mkstemp(suffix='.smt2', dir=os.environ.get('SYMX_TMP') or None)
+    os.write(fd, text.encode())
+    os.close(fd)
+    out = {}
+    try:
+        for name, cmd in (('z3-4.8.12', ['/usr/bin/z3', '-smt2', '-T:%d' % tlimit, path]), ('cvc5', ['cvc5', '--tlimit=%d' % (tlimit * 1000), path])):
+            try:
+                r = subprocess.run(cmd, capture_output=True, text=True, timeout=tlimit + 10)
+                lines = [l.strip() for l in (r.stdout + r.stderr).splitlines() if l.strip()]
+                if any(l.startswith('(error') for l in lines):
+                    out[name] = 'error'
+                elif 'unsat' in lines:
+                    out[name] = 'unsat'
+                elif 'sat' in lines:
+                    out[name] = 'sat'
+                else:
+                    out[name] = 'unknown'
+            except Exception:
+                out[name] = 'unknown'
+    finally:
+        try:
+            os.unlink(path)
+        except OSError:
+            pass
+    return out
